@@ -89,6 +89,13 @@ def setup(ctx):
     if not where.startswith(_repo_root() + os.sep):
         ctx.harness_error('periodictable imported from %s, not under %s' % (where, _repo_root()))
         return
+    # what "pristine" looks like in this tree (taken before anything ran): compared again in finish()
+    _state['pristine'] = X.pristine_snapshot()
+    if X.pending_groups(_state['pristine']['loader_state']) != sorted(X.LAZY):
+        ctx.harness_error('right after `import periodictable` these lazy groups have no delayed-load placeholder in '
+                          'the class dictionaries: %r (state %r)'
+                          % (sorted(set(X.LAZY) - set(X.pending_groups(_state['pristine']['loader_state']))),
+                             _state['pristine']['loader_state']))
     st, canon = X.run_forked(X.canonical)
     X.CONFIG['xray_elements'] = None if ctx.thorough() else set(X.XRAY_QUICK)
     X.CONFIG['force_all'] = ctx.thorough()
@@ -353,12 +360,11 @@ def finish(ctx):
         pass
     if 'canon' in _state:
         # the interpreter every history was forked from must still be pristine
-        import periodictable
-        st = X.loader_state()
+        now = X.pristine_snapshot()
         ctx.evaluated(1, 'parent_still_pristine')
-        if X.pending_groups(st) != sorted(X.LAZY) or list(periodictable.elements.properties) != ['mass', 'density'] \
-                or len(periodictable.core.PRIVATE_TABLES) != 1:
-            ctx.harness_error('the parent interpreter is no longer pristine: %r %r' % (st, periodictable.elements.properties))
+        if now != _state.get('pristine'):
+            ctx.harness_error('the parent interpreter is no longer pristine: %r, right after the import it was %r'
+                              % (now, _state.get('pristine')))
     if ctx.replay:
         return
     for g in X.LAZY:
